@@ -20,12 +20,12 @@ CHECKS = {
     "C03": dict(
         category="exploration", design_ref="DESIGN.md §2 C03",
         technique="runtime reference-model monitor: conversion replies of the real evaluator vs exact values from the dumped unit table; conformance-error suggestions checked by following them with an independent dimension algebra",
-        text="Thorough enumerates every ordered pair of conformable database units (about 5.6e5) plus mismatching and reciprocal pairs, prefixed/plural names and random compound sources/targets with constants and inline definitions; each reply must be the exact ratio (and convert back to 1), or a conformance error whose suggestion makes the sides conformable. Quick covers every class and every unit with sampled partners.",
-        note="Unit values come from the loaded database (C08); float-valued units are judged on refusal only; names that are timezone names or conversion keywords are skipped as targets."),
+        text="Thorough enumerates every ordered pair of conformable database units (about 5.6e5) plus mismatching and reciprocal pairs, prefixed/plural names and random compound sources/targets with constants and inline definitions; each reply must be the exact ratio (and convert back to 1), the number as printed times the target as stated must be the source value, or it must be a conformance error whose suggestion makes the sides conformable; tokens after a complete target must be refused. Quick covers every class and every unit with sampled partners.",
+        note="Unit values come from the loaded database (C08); conversions through a float-valued unit or a root are judged to a relative 1e-9; names that are timezone names or conversion keywords are skipped as targets."),
     "C04": dict(
         category="exploration", design_ref="DESIGN.md §2 C04",
         technique="runtime event monitor: hostile inputs driven through the real lexer/parser/evaluator/renderers on long-lived contexts under a panic hook, overflow checks and per-request watchdogs; process-level observation of the release `rink -f -` binary",
-        text="Grammar-directed queries with boundary integers in every numeric position, token soup, mutations of a corpus from the manual and tests, and raw Unicode incl. nesting stress, in histories of 200 on long-lived contexts with text, span-tree and JSON rendering and a health query after each history; any panic (by site), process death, or watchdog expiry on a cheap input is a violation. Holds for the inputs generated, not for all strings.",
+        text="Six generators: search-space commands (factorize / units for over unit products with exponents up to +-12, also built up through ans), a grid of special values (NaN, infinities, zeros, boundary integers and exponents, dates, substances, the previous answer) in every operator/command context, grammar-directed queries with boundary integers in every numeric position, token soup, mutations of a corpus from the manual and tests, and raw Unicode incl. nesting stress, in histories of 200 on long-lived contexts with text, span-tree and JSON rendering and a health query after each history; any panic (by site), process death, or watchdog expiry on a cheap input is a violation. Holds for the inputs generated, not for all strings.",
         note="Cheap/expensive is a conservative lexical rule (stated in the evidence); expensive inputs that exceed the watchdog are inconclusive; the probe profile (opt-level 1, overflow checks on) differs from the release profile, which is exercised by the CLI slice."),
     "C05": dict(
         category="exploration", design_ref="DESIGN.md §2 C05",
@@ -35,7 +35,7 @@ CHECKS = {
     "C06": dict(
         category="exploration", design_ref="DESIGN.md §2 C06",
         technique="runtime monitor over recorded replies: numerals re-read by the independent reader, printed unit names resolved by the name-resolution model, product compared with the exact quantity, from both the structured parts and the rendered token stream",
-        text="Every database unit x magnitudes 1e-30..1e30 x {0.999, 1, 1000/999} x powers 1..3 (thorough: complete), every unit's definition reply, base-unit products around every derived-unit regrouping, conversions with constant factors and compound targets, unit lists and durations: printed numeral x factor x unit must equal the quantity exactly (exact numerals) or within one last-digit unit (approximate / list numerals), and the dimensionality and quantity shown must be those of the result.",
+        text="Every database unit x magnitudes 1e-30..1e30 x {0.999, 1, 1000/999} x powers 1..3 (thorough: complete), every unit's definition reply, base-unit products around every derived-unit regrouping, conversions with constant factors and compound targets (constants under powers and roots, sums, mod / bit operators), number-format conversions of values with units, unit lists and durations, `k substance` and `<amount> substance` replies: printed numeral x factor x unit must equal the quantity exactly (exact numerals) or within one last-digit unit (approximate / list numerals), and the dimensionality and quantity shown must be those of the result.",
         note="Unit names are resolved by the Python model that C07 validates against rink; temperature pseudo-units belong to C10; pure-constant targets print no unit and are not generated."),
     "C07": dict(
         category="exploration", design_ref="DESIGN.md §2 C07",
@@ -50,8 +50,8 @@ CHECKS = {
     "C09": dict(
         category="exploration", design_ref="DESIGN.md §2 C09",
         technique="runtime monitor over recorded replies: parts read from exact raw values, the four decomposition laws recomputed in exact arithmetic from the dumped unit values",
-        text="Seeded unit lists of 2..6 conformable units from every dimensionality class (descending/ascending/repeated/random order, both separators) with zero/tiny/huge/random/near-multiple values of both signs, and time values through the automatic year..second breakdown; exact sum, integral non-final parts, common sign and bounded remainders are checked, and non-conformable lists/values must be refused.",
-        note="Only positive exact-valued units are listed; printed per-entry numerals are judged by C06."),
+        text="Seeded unit lists of 2..6 conformable units from every dimensionality class (descending/ascending/repeated/random order, both separators) with zero/tiny/huge/random/near-multiple values of both signs, and time values through the automatic year..second breakdown; exact sum, integral non-final parts, common sign and bounded remainders are checked, and non-conformable lists/values must be refused; lists written in prefixed/plural spellings have their printed parts read back, lists with a float-valued unit are judged to 1e-9, lists with a negative-valued unit must be refused or keep the sign law.",
+        note="Known finding: parts rescaled with an SI prefix glued onto the list's spelling can carry names rink cannot read (pinned by an existing test); printed per-entry numerals of database-name lists are judged by C06."),
     "C10": dict(
         category="exploration", design_ref="DESIGN.md §2 C10",
         technique="runtime reference-model monitor: textbook affine maps in exact arithmetic vs the real evaluator, per spelling; chains fed by exact replies",
@@ -65,22 +65,22 @@ CHECKS = {
     "C12": dict(
         category="exploration", design_ref="DESIGN.md §2 C12",
         technique="runtime history-invariant monitor: the same definition multiset loaded by the real loader in many orders and file splits; canonical registry dumps compared byte for byte",
-        text="Entry-level permutations of the parsed bundled file (identity, reversal, dependency-reversed, rotations, seeded shuffles), text-level pieces parsed as separate files in shuffled order, and generated databases with deep/wide/diamond dependency graphs shuffled and split into 1..3 files must all load without error into byte-identical databases (prefix order included).",
+        text="Entry-level permutations of the parsed bundled file (identity, reversal, dependency-reversed, rotations, seeded shuffles), text-level pieces parsed as separate files in shuffled order, and generated databases (deep/wide/diamond dependency graphs, ambiguous prefix splits, long-name references, doc comments) shuffled and split into 1..3 files at text level must all load without error into byte-identical databases (prefix order included).",
         note="Only uniquely named definitions are permuted (duplicates keep relative order, last-wins by design); explores sampled permutations, not all n!."),
     "C13": dict(
         category="exploration", design_ref="DESIGN.md §2 C13",
         technique="runtime event + invariant monitor: hostile definition files, currency JSON and date-pattern files loaded by the real loader under a panic hook and watchdogs; dropped entries matched against reported messages; follow-up queries on the partially loaded context",
-        text="Mutants of the bundled files (line/token deletion, duplication, swapping, truncation, CRLF), damaged currency JSON, grammar-directed random files with zero/negative/mismatched substance properties and unknown pragmas, dependency cycles through units, prefixes, quantities and substance properties of length 1..5000 and chains to 5000, random date-pattern files: no panic, abort or hang; cycles reported; every dropped entry mentioned in a message; the context still answers queries about loaded and broken names.",
+        text="Mutants of the bundled files (line/token deletion, duplication, swapping, truncation, CRLF), damaged currency JSON, grammar-directed random files (prefix and quantity power arithmetic with zero bases and boundary exponents, zero/negative/mismatched substance properties, molar masses of any dimensionality with symbols and formulas, unknown pragmas), valid files with nested prefixes that must load cleanly, two-file loads closing alias loops, dependency cycles through units, prefixes, quantities and substance properties of length 1..5000 and chains to 5000, random date-pattern files: no panic, abort or hang; cycles reported; every dropped entry mentioned in a message; the context still answers queries about loaded and broken names.",
         note="Depth bound claimed: 5000 definitions per chain/cycle on an 8 MiB stack; an entry counts as reported when a message mentions its name."),
     "C14": dict(
         category="exploration", design_ref="DESIGN.md §2 C14",
         technique="runtime reference-model monitor: literals rendered from chosen instants per documented pattern; instants recovered from replies and compared with an independent proleptic-Gregorian integer-nanosecond calendar",
-        text="Instants over years 0001-9999 rendered into every documented literal form (with optional seconds, 1-9 fractional digits, fixed offsets) x whole-nanosecond durations from 1 ns to ~9500 years written in 16 time units with both signs: the literal's instant, (d+t)-d = t, (d-t)+t = d, d1-d2, fixed-offset and named-zone conversions keeping the instant, and refusal of offsets of 24 h or more.",
-        note="Clock pinned; named zones only as conversion targets and only for instants from 1972 on; ISO-week and year-less patterns are not generated; the sandbox's local zone is UTC."),
+        text="Instants over years 0001-9999 rendered into every documented literal form (with optional seconds, 1-9 fractional digits, fixed offsets) x whole-nanosecond durations from 1 ns to ~9500 years written in 16 time units with both signs: the literal's instant, (d+t)-d = t, (d-t)+t = d, d1-d2, fixed-offset and named-zone conversions keeping the instant, and refusal of offsets of 24 h or more; literals that describe no instant (impossible day, minute 60, offset >= 24 h) must be refused, second 60 refused or consistent, time-only literals in named zones on daylight-saving days (pinned clock) must not panic, duration minus date must be refused, the rfc3339 field must name the instant for zones with second-valued offsets.",
+        note="Clock pinned; named zones (in literals and as targets) judged with the system tz database for instants from 1972 on; ISO-week and year-less patterns are not generated; the sandbox's local zone is UTC."),
     "C16": dict(
         category="exploration", design_ref="DESIGN.md §2 C16",
         technique="runtime reference-model monitor: substance property queries of the real evaluator vs exact arithmetic over the dumped property table; displayed parts re-read with the C05/C06 reader",
-        text="Exhaustive over all substances with unit amount and all their properties: by-name lookup under dimensionless multiples (k S, S*k, S/k), output of an amount given in the input's dimensionality, the inverse query, refusal (conformance error) of amounts of another dimensionality, scaling of every property in replies to k S; chemical formulas over the element symbols with counts up to 2^32-1 against the exact count-weighted sum, and near-miss strings that must not be treated as formulas.",
+        text="Exhaustive over all substances with unit amount and all their properties: by-name lookup under dimensionless multiples (k S, S*k, S/k), output of an amount given in the input's dimensionality, the inverse query, refusal (conformance error) of amounts of another dimensionality, of the asked side's own dimensionality and of plain numbers, zero amounts, scaling of every property in replies to k S, the plain reply to `<amount> S` and `S -> k unit` conversions read back as printed; chemical formulas over the element symbols with counts up to 2^32-1 against the exact count-weighted sum, and near-miss strings (unknown symbols, lower case, counts of zero or with leading zeros, 2^32) that must not be treated as formulas.",
         note="Ambiguously named properties are skipped as the statement allows; substances shadowed by unit names (C07 rule) and derived substances with their own amount (lusec) are skipped."),
     "C17": dict(
         category="exploration", design_ref="DESIGN.md §2 C17",
@@ -105,7 +105,7 @@ CHECKS = {
     "C20": dict(
         category="fault_enumeration", design_ref="DESIGN.md §2 C20",
         technique="runtime fault enumeration on the real release `rink` binary: fault-injecting loopback HTTP server, cache-directory bytes before/after, this and the next start's output, strace log checked against a trace specification, SIGKILL injected (strace inject) at every traced file syscall of the refresh",
-        text="Prior cache {absent, fresh, stale, unreadable fresh/stale} x server {200 complete under both framings, body cut after k bytes under both framings, 301/302/404/500/503, stalls, reset, refused, complete non-JSON body} x entry point {startup with a currency query, --fetch-currency}: the cache must hold the previous or the complete new bytes, rink must still start, use the stale cache and answer 1 + 1, new rates must be visible to the next start; the syscall trace must show no write to the cache file itself and fsync before every rename onto it; the client is killed at every file syscall of a successful refresh.",
+        text="Prior cache {absent, fresh, stale, unreadable fresh/stale, dated ahead of the clock} x server {200 complete under both framings, body cut after k bytes under both framings, 301/302/404/500/503, stalls, reset, refused, complete non-JSON body} x entry point {startup with a currency query, --fetch-currency}: the cache must hold the previous or the complete new bytes, rink must still start, use the stale cache and answer 1 + 1, new rates must be visible to the next start; the syscall trace must show no write to the cache file itself and fsync before every rename onto it; the client is killed at every file syscall of a successful refresh; sequences of refreshes on one cache directory (cut / stalled / killed, then a shorter complete body) must leave the previous or the complete new body after every step.",
         note="Durability of fsync under power loss is checked on the trace only (not observable in this VM); bodies without framing are not generated; quick cuts at 8 offsets, thorough at every 4 KiB and around every 16 KiB boundary."),
 }
 
